@@ -1139,6 +1139,11 @@ func strfStream(r *Run) {
 
 	// 3. receivers that are not strings
 	univ := append(scalarUniverse(), VAnys(), VAnys(VInt(0, 1), VInt(0, 2)), VSlice(TStr, VStr("a")), VSlice(TInt(0), VInt(0, 1)))
+	// float32 values with a fraction that float32 holds only approximately: the text they print as is the shortest
+	// float32 spelling (0.1), not the spelling of the same value widened to float64 (0.10000000149011612)
+	for _, f := range []float32{0.1, 1.1, 2.675, 3.3, -0.7, 1e-7, 123456.7} {
+		univ = append(univ, VFlt(0, float64(f)))
+	}
 	for _, v := range univ {
 		for _, name := range strfAll {
 			if (v.Kind == 'L') != (name == "size") && v.Kind == 'L' {
